@@ -34,8 +34,9 @@ def troff_escape(value: str) -> str:
 
 
 def troff_escape_arg(value: str) -> str:
-    """Escape document text used as a macro argument: it must stay on the macro's own line."""
-    return troff_escape(value.replace("\n", " "))
+    """Escape document text used as a macro argument: it must stay on the macro's own line,
+    and a double quote in it is a character, not the quoting of an argument."""
+    return troff_escape(value.replace("\n", " ")).replace('"', r"\(dq")
 
 
 @dataclass
